@@ -58,8 +58,9 @@ func faultRun(k *K, cd *codec, x []byte, ref []item, kk int, m faultMode) bool {
 	limit := 2*len(x) + 16
 	var got []item
 	over := false
+	theSeq := cd.seq(fr)
 	p := catch(func() {
-		for key, err := range cd.seq(fr) {
+		for key, err := range theSeq {
 			if len(got) >= limit {
 				over = true
 				break
@@ -101,6 +102,39 @@ func faultRun(k *K, cd *codec, x []byte, ref []item, kk int, m faultMode) bool {
 	}
 	k.Count("error_items", int64(nerr))
 	k.Count("records_before_fault", int64(ri))
+	// The reader keeps failing: ranging over the same iterator value once more
+	// must report the failure again, not end as though the data were complete.
+	if m.forever && kk%5 == 0 {
+		var again []item
+		p2 := catch(func() {
+			for key, err := range theSeq {
+				if len(again) >= limit {
+					break
+				}
+				again = append(again, item{Key: key, Err: err != nil})
+			}
+		})
+		if p2 != nil {
+			if _, ok := p2.(readBudgetExceeded); ok {
+				return fail("spins-on-failing-reader", "second pass over the same iterator value kept calling Read on a failing reader")
+			}
+			panic(p2)
+		}
+		nerr2 := 0
+		for _, it := range again {
+			if it.Err {
+				nerr2++
+			} else {
+				got = again
+				return fail("fabricated-record", "second pass over the same iterator value (reader still failing) delivered a record: %.200s", it.Key)
+			}
+		}
+		if nerr2 == 0 {
+			got = again
+			return fail("clean-end", "second pass over the same iterator value ended cleanly although the reader is still failing")
+		}
+		k.Count("second_passes_on_failing_reader", 1)
+	}
 	return true
 }
 
@@ -310,6 +344,19 @@ func c07WriteFaults(c *Ctx) {
 						k.Failf("write-prefix", "%s.Write wrote bytes that are not a prefix of the full output before failing", w.kind)
 						return
 					}
+					// A failed Write must leave nothing behind: the next Write and
+					// MarshalText, to a healthy writer, produce exactly the record again.
+					if kk%3 == 0 || kk == L-1 {
+						after := &limitWriter{k: -1}
+						err2 := w.write(after)
+						m2, merr := w.marshal()
+						if err2 != nil || merr != nil || !bytes.Equal(after.buf, want) || !bytes.Equal(m2, want) {
+							k.Input("writer_accepts_bytes", kk)
+							k.Failf("write-after-failed-write", "%s: after a Write that failed at byte %d of %d, the next Write to a healthy writer produced %.200q (err %v) and MarshalText %.200q (err %v), want %.200q", w.kind, kk, L, after.buf, err2, m2, merr, want)
+							return
+						}
+						k.Count("healthy_writes_after_failed", 1)
+					}
 				}
 				k.Nontrivial([]byte(w.kind), want)
 			})
@@ -401,6 +448,15 @@ func c07WriteFaultsLarge(c *Ctx) {
 						k.Input("writer_accepts_bytes", kk)
 						k.Failf("write-error-swallowed", "%s.Write returned nil although the writer failed after %d of %d bytes", w.kind, kk, L)
 						return
+					}
+					if kk%97 == 0 || kk == L-1 {
+						after := &limitWriter{k: -1}
+						if err2 := w.write(after); err2 != nil || !bytes.Equal(after.buf, want) {
+							k.Input("writer_accepts_bytes", kk)
+							k.Failf("write-after-failed-write", "%s: after a Write that failed at byte %d of %d, the next Write to a healthy writer produced %d bytes (err %v), want the %d bytes of the record", w.kind, kk, L, len(after.buf), err2, L)
+							return
+						}
+						k.Count("healthy_writes_after_failed", 1)
 					}
 				}
 				k.Nontrivial([]byte(w.kind), want[:min(200, len(want))], []byte(fmt.Sprint(L)))
